@@ -87,7 +87,12 @@ package limiters
 // taken (assumed for the field; proved for the three constructors built in limits.Init).
 //@ extern func (BucketSet).New$field() L
 //@   ensures result != nil && result.held == 0
-//@ pure func bucketsOK(r *BucketSet) bool = r != nil && r.m != nil && (forall k string :: has(r.m, k) ==> r.m[k] != nil && r.m[k].r != nil)
+// holds(r)[key]: permits currently taken through bucket set r under key (ghost view used by limits.Group; the link to
+// the per-bucket limiters is NOT proved: the postconditions on holds below are trusted-ensures with an assumed frame).
+//@ ghost field BucketSet.holds Map[string,int]
+// Assumed link between the ghost view and the buckets (the model does not track it through take()):
+//@ axiom bucket-link: forall r *BucketSet, k string :: r != nil && r.holds[k] > 0 ==> has(r.m, k) && r.m[k] != nil && r.m[k].r != nil && r.m[k].r.held > 0
+//@ pure func bucketsOK(r *BucketSet) bool = r != nil && r.m != nil && (forall k string :: has(r.m, k) ==> r.m[k] != nil && r.m[k].r != nil) && (forall k string :: r.holds[k] >= 0)
 //@ func (*BucketSet).take
 //@   prop C11
 //@   nopanic
@@ -102,18 +107,27 @@ package limiters
 //@   prop C11
 //@   nopanic
 //@   requires bucketsOK(r)
-//@   modifies *
+//@   modifies r.holds
+//@   noframe
+//@   trusted-ensures r.New != nil && result ==> r.holds == store(old(r.holds), key, old(r.holds)[key] + 1)
+//@   trusted-ensures r.New == nil || !result ==> r.holds == old(r.holds)
 //@ func (*BucketSet).TakeContext
 //@   prop C11
 //@   nopanic
 //@   requires bucketsOK(r)
-//@   modifies *
+//@   modifies r.holds
+//@   noframe
+//@   trusted-ensures r.New != nil && result == nil ==> r.holds == store(old(r.holds), key, old(r.holds)[key] + 1)
+//@   trusted-ensures r.New == nil || result != nil ==> r.holds == old(r.holds)
 //@ func (*BucketSet).Release
 //@   prop C11
 //@   nopanic
 //@   requires bucketsOK(r)
-//@   requires has(r.m, key) ==> r.m[key].r.held > 0
-//@   modifies *
+//@   requires r.New == nil || r.holds[key] > 0
+//@   modifies r.holds
+//@   noframe
+//@   trusted-ensures r.New != nil && old(r.holds)[key] > 0 ==> r.holds == store(old(r.holds), key, old(r.holds)[key] - 1)
+//@   trusted-ensures r.New == nil || old(r.holds)[key] <= 0 ==> r.holds == old(r.holds)
 //@ func (*BucketSet).Close
 //@   prop C11
 //@   nopanic
